@@ -56,18 +56,22 @@ def gen_project(rng, idx, nfiles=None):
 
 
 OPTION_SETS = [
+    ["--inline-suppr", "--enable=all", "--showtime=file"],            # 0: a WORKER calls TimerResults::showResults while others add results
+    ["--inline-suppr", "--enable=all", "--showtime=top5_file"],       # 1: same through the top-5 path
     ["--inline-suppr", "--enable=all", "--inconclusive"],
     ["--inline-suppr", "--enable=all", "--showtime=summary"],
-    ["--inline-suppr", "--enable=all", "--showtime=file"],
-    ["--inline-suppr", "--enable=warning,style,information", "--showtime=top5", "--suppress=uninitvar:s1.c", "--suppress=zerodiv"],
+    ["--inline-suppr", "--enable=warning,style,information", "--showtime=top5_summary", "--suppress=uninitvar:s1.c", "--suppress=zerodiv"],
     ["--inline-suppr", "--enable=all", "--xml", "--suppress=*:sh.h", "--suppress=memleak:s*.c"],
     ["--inline-suppr", "--enable=all", "--cppcheck-build-dir=bd"],
     ["--inline-suppr", "--enable=all", "--project=compile_commands.json"],
     ["--inline-suppr", "--enable=all", "--library=posix", "--library=gnu", "-v", "--debug-warnings"],
     ["--inline-suppr", "--enable=all", "--emit-duplicates", "--template={file}:{line}:{id}:{message}"],
     ["--enable=all", "--suppress=nullPointerRedundantCheck", "--suppress=doesNotExist", "--force", "-DCFG_A"],
-    ["--inline-suppr", "--enable=all", "--showtime=summary", "--cppcheck-build-dir=bd", "--max-configs=4", "--check-level=exhaustive"],
+    ["--inline-suppr", "--enable=all", "--showtime=file", "--cppcheck-build-dir=bd", "--max-configs=4", "--check-level=exhaustive"],
     ["--inline-suppr", "--enable=all", "--debug", "--showtime=file-total"],
+    ["--inline-suppr", "--enable=all", "--dump", "--showtime=top5_file"],
+    ["--inline-suppr", "--enable=all", "--plist-output=pl", "--xml"],
+    ["--inline-suppr", "--enable=all", "--check-config", "--showtime=file"],
 ]
 
 
@@ -77,6 +81,8 @@ def write_project(d, proj, opts):
         open(os.path.join(d, n), "w").write(t)
     if any(o.startswith("--cppcheck-build-dir=") for o in opts):
         os.makedirs(os.path.join(d, "bd"), exist_ok=True)
+    if any(o.startswith("--plist-output=") for o in opts):
+        os.makedirs(os.path.join(d, "pl"), exist_ok=True)
     if any(o.startswith("--project=") for o in opts):
         cc = [dict(directory=d, command="cc -c -DCFG_B=%d %s" % (i, s), file=os.path.join(d, s)) for i, s in enumerate(proj["srcs"])]
         json.dump(cc, open(os.path.join(d, "compile_commands.json"), "w"))
